@@ -82,14 +82,17 @@ type aWorld struct {
 	procSh    *processor.OperationProcessor
 	procAlt   *processor.OperationProcessor
 
-	now       uint64
-	seq       uint64
-	scheme    int
-	perTime   map[uint64]uint64
-	usedNum   map[[2]uint64]bool
-	mark      int
-	nextID    int
-	unpubOp   *aOp
+	now     uint64
+	seq     uint64
+	scheme  int
+	perTime map[uint64]uint64
+	usedNum map[[2]uint64]bool
+	mark    int
+	nextID  int
+	unpubOp *aOp
+	// jsonMove: this run rearranges list members with ietf-json-patch "move" (violations found in such runs carry their
+	// own fingerprints)
+	jsonMove  bool
 	deactSnap string
 	deactAt   int
 
@@ -105,6 +108,12 @@ type aWorld struct {
 }
 
 func (w *aWorld) fail(prop, oracle, detail string) {
+	// runs that move members into lists through ietf-json-patch are kept apart (known finding: the JSON patch library
+	// the composer uses overwrites the element at the target index instead of inserting before it)
+	if w.jsonMove {
+		oracle += "[json-patch-move-into-list]"
+	}
+
 	w.k.Fail(&simkit.Violation{Property: prop, Oracle: oracle, Detail: detail, Fingerprint: prop + "/" + oracle})
 }
 
@@ -135,6 +144,10 @@ func runWorldA(rc *RunCtx, prop string) *RunResult {
 		{workload.Ed25519, workload.P256, workload.Secp256k1, workload.P384, workload.P521},
 	}
 	w.keyTypes = ktPool[T.Draw(len(ktPool), "cfg.keytypes")]
+
+	if prop == "C03" && T.Draw(16, "cfg.json-move-run") == 0 {
+		w.jsonMove = true
+	}
 
 	switch prop {
 	case "C02", "C03", "C12", "C04":
@@ -360,6 +373,17 @@ func (w *aWorld) genPatches(failing bool, create bool) []workload.PatchDesc {
 			out = append(out, workload.PatchDesc{Kind: workload.RemoveNote, Mark: mark})
 		default:
 			out = append(out, workload.PatchDesc{Kind: workload.AddNote, Mark: noteValue(mark)})
+		}
+
+		// (dedicated runs) a list member, and notes moved into it
+		if w.jsonMove && !create {
+			switch T.Draw(4, "patch.tags") {
+			case 0:
+				out[len(out)-1] = workload.PatchDesc{Kind: workload.AddTags, IDs: []string{"a-" + mark, "b-" + mark, "c-" + mark}[:1+T.Draw(3, "patch.tags.n")]}
+			case 1:
+				out[len(out)-1] = workload.PatchDesc{Kind: workload.MoveNoteIntoTags}
+				w.k.Count("probe:json-patch-move-into-list")
+			}
 		}
 	}
 
@@ -1720,11 +1744,19 @@ func extractDoc(d document.Document) refmodel.Doc {
 
 	out.Note, _ = m["note"].(string)
 
+	if l, ok := m["tags"].([]interface{}); ok {
+		for _, e := range l {
+			s, _ := e.(string)
+			out.Tags = append(out.Tags, s)
+		}
+	}
+
 	return out
 }
 
 func docEqual(a, b refmodel.Doc) bool {
-	return fmt.Sprint(a.Keys) == fmt.Sprint(b.Keys) && fmt.Sprint(a.Svcs) == fmt.Sprint(b.Svcs) && fmt.Sprint(a.AKA) == fmt.Sprint(b.AKA) && a.Note == b.Note
+	return fmt.Sprint(a.Keys) == fmt.Sprint(b.Keys) && fmt.Sprint(a.Svcs) == fmt.Sprint(b.Svcs) && fmt.Sprint(a.AKA) == fmt.Sprint(b.AKA) && a.Note == b.Note &&
+		fmt.Sprintf("%q", a.Tags) == fmt.Sprintf("%q", b.Tags)
 }
 
 // dump renders every field of a resolution result (optionally with the operation lists).
